@@ -197,6 +197,11 @@ fn insert(string_map: &mut StringMap, id: &str, idx: Option<usize>) -> Result<()
             if actual != expected {
                 return Err(ParseError::StringMapPositionMismatch(actual, expected));
             }
+        } else if let Some(entry) = string_map.get_index(i) {
+            // The position is already taken by a different ID: the two would share an index.
+            let actual = (i, id.into());
+            let expected = (i, entry.into());
+            return Err(ParseError::StringMapPositionMismatch(actual, expected));
         } else if i > MAX_IDX || string_map.insert_at(i, id.into()).is_err() {
             let actual = (i, id.into());
             let expected = (string_map.entries.len(), id.into());
